@@ -104,6 +104,10 @@ end
 inductive WItem where
   | item (i : Item)
   | value (self : Lbl) (v : Value)
+  /-- `ScriptVariable::Archive(arc)`: a named variable — its `key` through `StringDictionary::ArchiveString`, then
+      `ArchiveInternal` (what `con::Archive(arc, Entry<const_str, ScriptVariable>&)` does for every entry of a
+      `ScriptVariableList`) -/
+  | named (self : Lbl) (key : Option Bytes) (v : Value)
   deriving Repr
 
 /-- all the `Archive*` calls of a mixed sequence -/
@@ -116,6 +120,10 @@ def expand (t : List Lbl) : List WItem → List Lbl × List Item
     let r1 := valCalls t s v
     let r2 := expand r1.1 ws
     (r2.1, r1.2 ++ r2.2)
+  | .named s k v :: ws =>
+    let r1 := valCalls t s v
+    let r2 := expand r1.1 ws
+    (r2.1, keyCalls k ++ (r1.2 ++ r2.2))
 
 def encodeW (info : Info) (ws : List WItem) : Bytes := encode info (expand [] ws).2
 
@@ -147,6 +155,29 @@ def Value.hashable : Value → Bool
   | .string _ | .constString _ | .int _ => true
   | .link c _ _ => c == 6
   | _ => false
+
+/-! ### looking a key up in a loaded hash array
+
+`con::set::Archive` files every loaded entry in bucket `Hash<ScriptVariable>()(key) % tableLength` **while the archive
+is open**.  A Listener key is a `SafePtr<Listener>` that `Archiver::Close` resolves later: at that moment
+`key.listenerValue()` is null and hashes 0.  A look-up after the load hashes the listener's address. -/
+
+/-- `Hash<ScriptVariable>` of a key while its entry is being loaded (`hash`: the hash of the other key kinds, the same
+    before and after) -/
+def keyHashAtLoad (hash : Value → Nat) : Value → Nat
+  | .link 6 _ _ => 0
+  | k => hash k
+
+/-- `Hash<ScriptVariable>` of the same key once the archive is closed (`addr`: the address of a listener) -/
+def keyHashAfter (hash : Value → Nat) (addr : Lbl → Nat) : Value → Nat
+  | .link 6 _ o => if o = 0 then 0 else addr o
+  | k => hash k
+
+/-- `array[key]` finds the loaded entry: the bucket it was filed in is the bucket the look-up searches.
+    `refiled`: the holder files its entries again once the archive is closed (`Gen.Archive.arrayRefiled`, read from
+    `ScriptArrayHolder::Archive`) -/
+def foundAfterLoad (refiled : Bool) (hash : Value → Nat) (addr : Lbl → Nat) (tableLength : Nat) (k : Value) : Bool :=
+  refiled || keyHashAtLoad hash k % tableLength == keyHashAfter hash addr k % tableLength
 
 /-- the entry loop of `con::set<ScriptVariable, ScriptVariable>::Archive`: `NewEntry()` (key and value variable),
     `Key().ArchiveInternal`, `Value().ArchiveInternal`, then the key is hashed -/
@@ -273,11 +304,13 @@ end
 inductive WSch where
   | item (c : Sch)
   | value (self : Lbl) (sup : Supply)
+  | named (self : Lbl) (sup : Supply)
 
 def schemaW : List WItem → List WSch
   | [] => []
   | .item i :: ws => .item (schemaOfItem i) :: schemaW ws
   | .value s v :: ws => .value s (supplyOf v) :: schemaW ws
+  | .named s _ v :: ws => .named s (supplyOf v) :: schemaW ws
 
 def readW (cfg : Cfg) (classes : List Bytes) (fuel : Nat) : List WSch → RS → Res (List WItem)
   | [], s => .ok [] s
@@ -286,6 +319,10 @@ def readW (cfg : Cfg) (classes : List Bytes) (fuel : Nat) : List WSch → RS →
   | .value self sup :: cs, s =>
     (readValue cfg fuel self sup s).bind fun r s =>
       (readW cfg classes fuel cs s).bind fun is s => .ok (.value self r.1 :: is) s
+  | .named self sup :: cs, s =>
+    (readKey cfg s).bind fun k s =>
+      (readValue cfg fuel self sup s).bind fun r s =>
+        (readW cfg classes fuel cs s).bind fun is s => .ok (.named self k r.1 :: is) s
 
 def look (table : List Lbl) (i : Nat) : Lbl := if i = 0 then 0 else table.getD (i - 1) 0
 
@@ -305,6 +342,7 @@ end
 def fixW (table : List Lbl) : WItem → WItem
   | .item i => .item (fixItem table i)
   | .value s v => .value s (fixValue table v)
+  | .named s k v => .named s k (fixValue table v)
 
 /-- `decode` for mixed sequences (fuel: nesting depth the value reader may descend) -/
 def decodeW (cfg : Cfg) (classes : List Bytes) (info : Info) (sch : List WSch) (bytes : Bytes) :
